@@ -16,6 +16,7 @@ to uids by the documented normalisation only (directory store: `<id>.<suffix>` /
 
 import hashlib
 import os
+import re
 import pathlib
 import random
 import shutil
@@ -33,7 +34,11 @@ RULE = (
     "format suffix, plus store-specific hostile names (directory: catalog, blog, geojson, xlog, ajson — last letters are a "
     "special suffix without the dot; sqlite: 0042, 7.10, 1e3, ' 12', 007, 7, a 20-digit string — text that parses as a "
     "number), one unique payload per write; `id in store` is asked for every identifier of the history, bare and as "
-    "stored, on the live and on the fresh store. (1) 'pairs': every ordered pair (x, y) of the set x 10 short templates "
+    "stored, on the live and on the fresh store. Further configurations: directory stores with the multi-part suffixes "
+    "fa.gz / aln.fasta / tar.gz over {a, ba, a.<first part>, a.b}; the writer apps write_db (sqlite), write_json, "
+    "write_seqs, write_tabular (directory, suffix json / fasta / tsv) as front end, writer.main(value | NotCompleted, "
+    "identifier=I) with I in {ENSG1, ENSG1.1, ENSG1.2, sample, sample.fasta, sample.json} minus those ending in the "
+    "store's suffix, model keyed by I as given, content identified by a payload token inside the serialised record. (1) 'pairs': every ordered pair (x, y) of the set x 10 short templates "
     "(write retires exactly its own not-completed record, drop(id), rewrite of a completed id, not-completed over "
     "completed / over not-completed, read-only rejection of every mutation, drop-all, logs, read-only open after drop-all) x {same session, reopen a, "
     "reopen w} (thorough: all three sessions for every (x, y, template); quick: one session per (x, y, template), rotated so "
@@ -95,7 +100,68 @@ EXTRA_FAMILIES = {
     "dir": [["catalog", "blog", "geojson", "a"], ["xlog", "ajson", "json", "blog"]],
     "sqlite": [["0042", "007", "7", "7.10"], ["1e3", " 12", "12345678901234567890", "7"]],
 }
-SUFFIX = "fasta"
+SUFFIX = "fasta"  # suffix of the directory store of the current history (see _configure)
+FRONT = None  # None: the store's own write methods; or the writer app driven with explicit identifiers
+MULTI_SUFFIXES = ["fa.gz", "aln.fasta", "tar.gz"]
+# writer app front ends: (store, suffix, app). Rule established on the unchanged tree: writer.main(data, identifier=I)
+# stores a completed value under I (sqlite) / I.<suffix> (directory) and a NotCompleted under I (sqlite) /
+# not_completed/I.json (directory), I exactly as given — nothing is stripped from an explicit identifier.
+# Not generated: identifiers that already end in the store's own suffix (for the directory store `x.<suffix>` IS `x`,
+# covered by the raw front end) and identifiers with a path separator (sqlite read() takes the part before `/` as a
+# table name — pinned by test_read_unknown_table; the directory store takes it as a sub-directory).
+APP_FRONTS = [("sqlite", None, "write_db"), ("dir", "json", "write_json"), ("dir", "fasta", "write_seqs"), ("dir", "tsv", "write_tabular")]
+APP_IDS = ["ENSG1", "ENSG1.1", "ENSG1.2", "sample", "sample.fasta", "sample.json"]
+
+
+def _configure(suffix=None, front=None):
+    global SUFFIX, FRONT
+    SUFFIX = suffix or "fasta"
+    FRONT = front
+
+
+def _make_writer(ds):
+    from cogent3.app import io as io_app
+
+    if FRONT == "write_db":
+        return io_app.write_db(data_store=ds)
+    if FRONT == "write_json":
+        return io_app.write_json(data_store=ds)
+    if FRONT == "write_seqs":
+        return io_app.write_seqs(data_store=ds, format="fasta")
+    if FRONT == "write_tabular":
+        return io_app.write_tabular(data_store=ds, format="tsv")
+    raise ValueError(FRONT)
+
+
+def _encode(token, completed):
+    """a value of the type the writer app takes whose serialised form carries the payload token"""
+    if not completed:
+        from cogent3.app.composable import NotCompleted
+
+        return NotCompleted("ERROR", "c13", token, source="c13-source")
+    if FRONT in ("write_db", "write_json"):
+        return {"payload": token}
+    if FRONT == "write_seqs":
+        from cogent3 import make_unaligned_seqs
+
+        return make_unaligned_seqs({token: "ACGT"}, moltype="dna")
+    from cogent3 import make_table
+
+    return make_table(header=["payload"], data=[[token]])
+
+
+_TOKEN = re.compile(r"PAY_[A-Za-z0-9_]+?_YAP")
+
+
+def _row(uid, raw, md5):
+    """[uid, content, md5]; behind a writer app the content is the payload token found in the serialised record and
+    the md5 is mapped to the token's md5 iff it is the md5 of the record as stored"""
+    if FRONT is None:
+        return [uid, raw, md5]
+    as_bytes = raw if isinstance(raw, bytes) else str(raw).encode("utf-8")
+    found = sorted(set(_TOKEN.findall(as_bytes.decode("latin-1"))))
+    token = found[0] if len(found) == 1 else f"<{len(found)} payload tokens in {as_bytes[:60]!r}>"
+    return [uid, token, md5hex(token) if md5 == hashlib.md5(as_bytes).hexdigest() else md5]
 
 
 # ---------------------------------------------------------------------------
@@ -214,7 +280,7 @@ def md5hex(data):
 
 def strip_render(store, rid):
     """logical identifier of a rendered identifier (the only normalisation the model knows)"""
-    if store == "dir":
+    if store == "dir" and FRONT is None:
         for s in (f".{SUFFIX}", ".json"):
             if rid.endswith(s) and len(rid) > len(s):
                 return rid[: -len(s)]
@@ -293,13 +359,13 @@ class Adapter:
         return f"logs/{name}"
 
     def expect_contains(self, model, q):
-        """`q in store`: a record (either kind) is stored under that relative identifier; the directory store adds its
-        suffix to a name that has neither the store suffix nor a special (.json / .log) one"""
-        if self.store == "dir":
-            special = q.endswith(".json") or q.endswith(".log")
-            if not q.endswith(f".{SUFFIX}") and not special:
-                q = f"{q}.{SUFFIX}"
-        return q in model.C or q in model.N
+        """`q in store`: a record (either kind) is stored under that relative identifier — as it is, or (directory
+        store) with the store suffix added when q does not end in it (an identifier may itself end in .json / .log)"""
+        if q in model.C or q in model.N:
+            return True
+        if self.store == "dir" and not q.endswith(f".{SUFFIX}"):
+            return f"{q}.{SUFFIX}" in model.C
+        return False
 
     def logical(self, uid):
         """logical id of an observed uid (used for relation classes only)"""
@@ -375,8 +441,8 @@ class Model:
 
 def observe(ds, probes=()):
     """what a client can see of a store; raises whatever the store raises"""
-    comp = sorted([str(m.unique_id), m.read(), ds.md5(str(m.unique_id))] for m in ds.completed)
-    nc = sorted([str(m.unique_id), m.read(), ds.md5(str(m.unique_id))] for m in ds.not_completed)
+    comp = sorted(_row(str(m.unique_id), m.read(), ds.md5(str(m.unique_id))) for m in ds.completed)
+    nc = sorted(_row(str(m.unique_id), m.read(), ds.md5(str(m.unique_id))) for m in ds.not_completed)
     logs = sorted([str(m.unique_id), m.read()] for m in ds.logs)
     v = ds.validate()
     vd = {str(r[0]): r[1] for r in v.to_list()}
@@ -412,7 +478,7 @@ def observe_held(ds, held):
         for (k, uid), m in held.items():
             if k != K:
                 continue
-            rows.append([uid, m.read(), m.md5])
+            rows.append(_row(uid, m.read(), m.md5))
             if str(m.unique_id) != uid or str(m) != uid or uid not in repr(m):
                 odd.append([K, uid, str(m.unique_id), str(m), repr(m)])
         out[K] = sorted(rows)
@@ -600,6 +666,8 @@ def _close(ds, unlock=False, force=False):
 
 def _run(res, A, ops, tag, state):
     store = A.store
+    label = store if FRONT is None else f"{store}.{FRONT}"
+    res.count(f"config:{label}:{SUFFIX if store == 'dir' else '-'}")
     A.probes = _probes(A, ops)
     model = Model()
     mode = None
@@ -617,7 +685,8 @@ def _run(res, A, ops, tag, state):
             operation=_short(op),
             history=[_short(o) for o in ops[: i + 1]],
             raw_listing=A.raw(),
-            replay_case={"kind": "script", "store": store, "ops": ops[: i + 1]},
+            front=FRONT,
+            replay_case={"kind": "script", "store": store, "suffix": SUFFIX, "front": FRONT, "ops": ops[: i + 1]},
             **detail,
         )
 
@@ -638,6 +707,7 @@ def _run(res, A, ops, tag, state):
                 raise
         state["live"] = ds
         state["held"] = {}
+        state["writer"] = _make_writer(ds) if FRONT else None
         mode = m
         return ds
 
@@ -684,7 +754,7 @@ def _run(res, A, ops, tag, state):
                     open_live(op["mode"], i, op)
             except Exception as e:  # noqa: BLE001
                 res.evals += 1
-                witness(exc_mechanism(f"C13/{store}/reopen@{op['mode']}", e), i, op, error=repr(e)[:300])
+                witness(exc_mechanism(f"C13/{label}/reopen@{op['mode']}", e), i, op, error=repr(e)[:300])
                 return
             reopened = True
             res.count(f"op:{store}:reopen-{mode}")
@@ -693,7 +763,7 @@ def _run(res, A, ops, tag, state):
             prob = (_dir_cache_problem if store == "dir" else _sql_cache_problem)(ds)
             if prob is not None:
                 res.evals += 1
-                witness(f"C13/{store}/before-{kind}/invariant/{prob}", i, op)
+                witness(f"C13/{label}/before-{kind}/invariant/{prob}", i, op)
                 try:
                     fresh0 = _observe_fresh(A)
                 except Exception:  # noqa: BLE001
@@ -719,6 +789,8 @@ def _run(res, A, ops, tag, state):
             if kind in ("write", "write_not_completed", "write_log"):
                 payload_n += 1
                 payload = op.get("data") or f">{tag}.{i} {kind} {op['id']}\nACGT{payload_n}\n"
+                if FRONT is not None and kind != "write_log":
+                    payload = "PAY_" + re.sub(r"[^A-Za-z0-9]", "_", f"{tag}_{i}_{payload_n}") + "_YAP"
             applied = model.copy()
             if kind == "write":
                 applied.C[target["completed"]] = [payload, md5hex(payload)]
@@ -744,7 +816,11 @@ def _run(res, A, ops, tag, state):
             exc = None
             ret = None
             try:
-                if kind == "write":
+                if kind == "write" and FRONT is not None:
+                    ret = state["writer"].main(_encode(payload, True), identifier=op["id"])
+                elif kind == "write_not_completed" and FRONT is not None:
+                    ret = state["writer"].main(_encode(payload, False), identifier=op["id"])
+                elif kind == "write":
                     ret = ds.write(unique_id=op["id"], data=payload)
                 elif kind == "write_not_completed":
                     ret = ds.write_not_completed(unique_id=op["id"], data=payload)
@@ -779,7 +855,7 @@ def _run(res, A, ops, tag, state):
                 else:
                     res.evals += 1
                     flagged = True
-                    witness(exc_mechanism(f"C13/{store}/{kind}" + (f"/{ctx}" if kind == "drop_all" else ""), exc), i, op, context=ctx, error=repr(exc)[:300], id_class=id_class(store, kind, lid, op.get("id")))
+                    witness(exc_mechanism(f"C13/{label}/{kind}" + (f"/{ctx}" if kind == "drop_all" else ""), exc), i, op, context=ctx, error=repr(exc)[:300], id_class=id_class(store, kind, lid, op.get("id")))
             else:
                 if must_not_change:
                     no_change = True
@@ -792,7 +868,7 @@ def _run(res, A, ops, tag, state):
         modepart = "@r" if mode == "r" else (f"@{mode}" if ctx == "over-completed" and kind in ("write", "write_not_completed") else "")
         idc = id_class(store, kind, op["id"] if kind == "write_log" else lid, op.get("id"))
         idpart = "" if idc == "plain" else f"/{idc}"
-        base = f"C13/{store}/{kind}{modepart}/{ctx}"
+        base = f"C13/{label}/{kind}{modepart}/{ctx}"
         try:
             fresh = _observe_fresh(A)
         except Exception as e:  # noqa: BLE001
@@ -818,13 +894,13 @@ def _run(res, A, ops, tag, state):
                 if stem.startswith(k_):
                     stem = stem[len(k_):]
             if mode == "r":
-                mech = f"C13/{store}/{kind}@r/mutated-in-read-only"
+                mech = f"C13/{label}/{kind}@r/mutated-in-read-only"
             elif no_change and kind in MUTATORS and mode == "a":
                 mech = f"{base}/changed-despite-append-mode{idpart}"
             elif stem in ("other-record-lost", "other-record-not-removed"):
-                mech = f"C13/{store}/{kind}/{cls}"  # the relation class says it all
+                mech = f"C13/{label}/{kind}/{cls}"  # the relation class says it all
             elif idc != "plain" and stem in MISPLACED:
-                mech = f"C13/{store}/{kind}/identifier-mangled/{idc}"
+                mech = f"C13/{label}/{kind}/identifier-mangled/{idc}"
             elif stem in ("target-not-overwritten", "target-not-retired"):
                 mech = f"{base}/{cls}"
             else:
@@ -895,7 +971,7 @@ def _run(res, A, ops, tag, state):
             if post != pre_listing and not flagged:
                 flagged = True
                 changed = sorted(k for k in set(pre_listing) | set(post) if pre_listing.get(k) != post.get(k))
-                witness(f"C13/{store}/{kind}@r/listing-changed-in-read-only", i, op, changed=changed)
+                witness(f"C13/{label}/{kind}@r/listing-changed-in-read-only", i, op, changed=changed)
         # ---- signature / bookkeeping
         rel = None
         if lid is not None:
@@ -947,6 +1023,8 @@ def _observe_fresh(A):
 def render(rng, store, kind, lid):
     """identifier as a caller might pass it"""
     r = rng.random()
+    if FRONT is not None:
+        return lid  # explicit identifiers go to the writer app exactly as they are
     if kind == "write":
         return f"{lid}.{SUFFIX}" if r < 0.4 else lid
     if kind == "write_not_completed":
@@ -955,13 +1033,13 @@ def render(rng, store, kind, lid):
     return f"{lid}.{SUFFIX}" if r < 0.3 else lid
 
 
-def random_history(rng, store, maxlen, profile):
-    fams = PLAIN_FAMILIES if profile == "plain" else FAMILIES + EXTRA_FAMILIES[store]
+def random_history(rng, store, maxlen, profile, given=None):
+    fams = [given] if given else PLAIN_FAMILIES if profile == "plain" else FAMILIES + EXTRA_FAMILIES[store]
     ids = list(rng.choice(fams))
     if rng.random() < 0.4:
         ids += rng.choice(fams)
     if rng.random() < 0.3:
-        ids.append(rng.choice(IDS + EXTRA_IDS[store] if profile != "plain" else ["a", "ba", "x1", "seq"]))
+        ids.append(rng.choice(given or (IDS + EXTRA_IDS[store] if profile != "plain" else ["a", "ba", "x1", "seq"])))
     ids = sorted(set(ids))
     if profile == "tight":
         ids = rng.sample(ids, min(len(ids), 2))
@@ -1072,6 +1150,19 @@ def gen_cases(rng, tier):
             sessions = ["rotate"] if tier == "quick" else SESSIONS
             for s in sessions:
                 cases.append({"kind": "pairs", "store": store, "x": x, "ys": ys, "session": s, "rot": rng.randrange(3), "seed": rng.randrange(2**32)})
+    # further store configurations: multi-part suffixes (raw front end) and the four writer apps as front end
+    configs = [("dir", sfx, None, ["a", "ba", f"a.{sfx.split('.')[0]}", "a.b"]) for sfx in MULTI_SUFFIXES]
+    configs += [(st, sfx, app, [i for i in APP_IDS if not (sfx and i.endswith(f".{sfx}"))]) for st, sfx, app in APP_FRONTS]
+    for st, sfx, app, ids in configs:
+        for x in ids:
+            c = {"kind": "pairs", "store": st, "suffix": sfx, "front": app, "x": x, "ys": ids, "seed": rng.randrange(2**32)}
+            if tier == "quick":
+                cases.append({**c, "session": "rotate", "rot": rng.randrange(3), "every": 3})
+            else:
+                cases.extend({**c, "session": s_} for s_ in SESSIONS)
+        if tier != "quick":
+            for _ in range(6):
+                cases.append({"kind": "random", "store": st, "suffix": sfx, "front": app, "ids": ids, "seed": rng.randrange(2**32), "n": 50, "maxlen": 25, "profile": "given"})
     nrand = 32 if tier == "quick" else 480
     per = 20 if tier == "quick" else 50
     maxlen = 15 if tier == "quick" else 25
@@ -1094,6 +1185,7 @@ def run_case(case):
     res = Result()
     kind = case["kind"]
     store = case["store"]
+    _configure(case.get("suffix"), case.get("front"))
     if kind == "pairs":
         rng = random.Random(case["seed"])
         x = case["x"]
@@ -1104,6 +1196,8 @@ def run_case(case):
                 if t not in case.get("templates", TEMPLATES):
                     continue
                 session = case["session"]
+                if case.get("every") and (ix + iy + it + case.get("rot", 0)) % case["every"]:
+                    continue  # quick tier, extra configurations: a rotating third of the templates per pair
                 if session == "rotate":
                     k = ix + iy + it + case.get("rot", 0)
                     session = SESSIONS[k % len(SESSIONS)]
@@ -1116,7 +1210,7 @@ def run_case(case):
     elif kind == "random":
         rng = random.Random(case["seed"])
         for h in range(case["n"]):
-            ops = random_history(rng, store, case["maxlen"], case["profile"])
+            ops = random_history(rng, store, case["maxlen"], case["profile"], case.get("ids"))
             run_history(res, store, ops, tag=f"r{h}")
             res.count(f"histories:{store}")
         res.sample({"store": store, "ops": [_short(o) for o in ops]})
@@ -1139,6 +1233,12 @@ def run_case(case):
 
 def required(counters, tier):
     need = []
+    for sfx in MULTI_SUFFIXES:
+        if counters.get(f"config:dir:{sfx}", 0) == 0:
+            need.append(f"no history on a directory store with suffix {sfx}")
+    for st, sfx, app in APP_FRONTS:
+        if counters.get(f"config:{st}.{app}:{sfx or '-'}", 0) == 0:
+            need.append(f"no history driven through the {app} app")
     for store in ("dir", "sqlite"):
         if counters.get(f"invariant-evaluations:{store}", 0) == 0:
             need.append(f"icontract invariant on the {store} store was never evaluated")
